@@ -272,13 +272,25 @@ Section Transparent.
   Hypothesis Hinj : pos_injective D.
   Hypothesis Hsmall : positions_small D.
   Hypothesis Hnames : type_names_ok S.
-  Hypothesis Hev : dirs_evaluable D E = true.
+  Hypothesis Hd1 : fixd M1 = true.
+  Hypothesis Hd2 : fixd M2 = true.
 
-  Definition cache_inv (C : list (bytes * gfs)) : Prop :=
+  (** every cached grouped field set is what collectFieldsImpl computes, and the directive errors
+      of that traversal are already reported *)
+  Definition cache_inv (errs : list gerror) (C : list (bytes * gfs)) : Prop :=
     Forall (fun kg => forall ot sels, name_ok ot -> Forall (occurs D) sels -> cache_key ot sels = fst kg ->
-                                      exists v, collect_impl S D E fuel ot sels [] [] = COk v (snd kg)) C.
+                                      (exists v, collect_impl S D E fuel ot sels [] [] = COk v (snd kg)) /\
+                                      incl (snd (collect_errs S D E fuel ot sels [])) errs) C.
 
-  Definition mrel (st1 st2 : state) : Prop := st_errs st1 = st_errs st2 /\ cache_inv (st_cache st1).
+  Lemma cache_inv_mono errs errs' C : incl errs errs' -> cache_inv errs C -> cache_inv errs' C.
+  Proof.
+    intros Hi H. unfold cache_inv in *. eapply Forall_impl; [|exact H].
+    intros kg Hkg ot sels Hot Hocc Hk. destruct (Hkg ot sels Hot Hocc Hk) as [Hv Hin].
+    split; [exact Hv|]. eapply incl_tran; eassumption.
+  Qed.
+
+  Definition mrel (st1 st2 : state) : Prop :=
+    st_errs st1 = st_errs st2 /\ cache_inv (st_errs st1) (st_cache st1).
   Definition cres2 {A} (y1 y2 : res A * state) : Prop := fst y1 = fst y2 /\ mrel (snd y1) (snd y2).
 
   Definition csim (c1 c2 : completer) : Prop :=
@@ -298,7 +310,8 @@ Section Transparent.
     destruct y1 as [r1 s1], y2 as [r2 s2]. intros [Hr [He Hc]]. cbn [fst snd] in *. subst r2.
     destruct t; cbn [catch_if_nullable fst snd]; try (split; [reflexivity|split; assumption]);
       destruct r1; unfold cres2, mrel; cbn; try (split; [reflexivity|split; assumption]);
-        (split; [reflexivity|]; split; [rewrite He; reflexivity|exact Hc]).
+        (split; [reflexivity|]; split; [rewrite He; reflexivity|
+                                        eapply cache_inv_mono; [|exact Hc]; apply incl_appl, incl_refl]).
   Qed.
 
   Lemma cres2_items t f0 more path items1 items2 :
@@ -328,27 +341,26 @@ Section Transparent.
     mrel (snd (collect_fields M1 S D E fuel ot sels st1)) (snd (collect_fields M2 S D E fuel ot sels st2)) /\
     (forall g, fst (collect_fields M2 S D E fuel ot sels st2) = CFOk g -> nodes_ok D g).
   Proof.
-    intros Hot Hocc [He Hc]. unfold collect_fields. rewrite Hm1, Hm2.
-    assert (Hnil : snd (collect_errs S D E fuel ot sels []) = []).
-    { apply (collect_errs_nil S D E (occurs D)); [| | |exact Hocc].
-      - intros s Hs. unfold dirs_evaluable in Hev. rewrite forallb_forall in Hev. apply Hev. exact Hs.
-      - intros tc p d sub Hs. exact (occurs_children D _ Hs).
-      - intros f Hf. apply occurs_frag. exact Hf. }
-    rewrite Hnil, !add_errs_nil.
+    intros Hot Hocc [He Hc]. unfold collect_fields. rewrite Hm1, Hm2, Hd1, Hd2.
+    set (es := snd (collect_errs S D E fuel ot sels [])).
     assert (Hnodes : forall v g, collect_impl S D E fuel ot sels [] [] = COk v g -> nodes_ok D g).
     { intros v g Hci. eapply collect_impl_nodes; [exact Hocc|constructor|exact Hci]. }
     destruct (assoc (cache_key ot sels) (st_cache st1)) as [g|] eqn:Ea.
-    - (* hit *)
+    - (* hit: the traversal without the cache reports nothing new *)
       apply assoc_in in Ea. pose proof Hc as Hc'. unfold cache_inv in Hc'. rewrite Forall_forall in Hc'.
-      destruct (Hc' _ Ea ot sels Hot Hocc eq_refl) as [v Hci]. cbn [snd] in Hci. rewrite Hci. cbn [fst snd].
+      destruct (Hc' _ Ea ot sels Hot Hocc eq_refl) as [[v Hci] Hin]. cbn [snd] in Hci. rewrite Hci. cbn [fst snd].
+      fold es in Hin. rewrite (report_all_in es st2) by (rewrite <- He; exact Hin).
       split; [reflexivity|]. split; [split; [exact He|exact Hc]|].
       intros g' Hg'. inversion Hg'; subst. eapply Hnodes. exact Hci.
     - destruct (collect_impl S D E fuel ot sels [] []) as [v g| |] eqn:Eci; cbn [fst snd].
       + split; [reflexivity|]. split.
-        * split; [exact He|]. cbn [st_cache]. constructor; [|exact Hc].
-          cbn [fst snd]. intros ot' sels' Hot' Hocc' Hk.
-          destruct (cache_key_inj ot' ot sels' sels Hot' Hot (occurs_small _ Hocc') (occurs_small _ Hocc) Hk) as [-> Hp].
-          rewrite (positions_determine D sels' sels Hinj Hocc' Hocc Hp). exists v. exact Eci.
+        * split; [cbn [st_errs]; apply report_errs_same; exact He|]. cbn [st_cache st_errs].
+          rewrite report_cache. constructor.
+          -- cbn [fst snd]. intros ot' sels' Hot' Hocc' Hk.
+             destruct (cache_key_inj ot' ot sels' sels Hot' Hot (occurs_small _ Hocc') (occurs_small _ Hocc) Hk) as [-> Hp].
+             rewrite (positions_determine D sels' sels Hinj Hocc' Hocc Hp). split; [exists v; exact Eci|].
+             apply report_incl.
+          -- eapply cache_inv_mono; [|exact Hc]. apply report_mono.
         * intros g' Hg'. inversion Hg'; subst. eapply Hnodes. reflexivity.
       + split; [reflexivity|]. split; [split; assumption|discriminate].
       + split; [reflexivity|]. split; [split; assumption|discriminate].
